@@ -210,6 +210,21 @@ func (k *KVStore) PutRaw(hkey uint64, value []byte) error {
 		break
 	}
 
+	return k.deleteFromOlderTables(hkey)
+}
+
+// deleteFromOlderTables removes superseded versions of the given hkey from the
+// read-only tables. Only the last table accepts writes.
+func (k *KVStore) deleteFromOlderTables(hkey uint64) error {
+	for i := len(k.tables) - 2; i >= 0; i-- {
+		err := k.tables[i].Delete(hkey)
+		if errors.Is(err, table.ErrHKeyNotFound) {
+			continue
+		}
+		if err != nil {
+			return err
+		}
+	}
 	return nil
 }
 
@@ -245,7 +260,7 @@ func (k *KVStore) Put(hkey uint64, value storage.Entry) error {
 		break
 	}
 
-	return nil
+	return k.deleteFromOlderTables(hkey)
 }
 
 // GetRaw extracts encoded value for the given hkey. This is useful for merging tables.
